@@ -4,6 +4,8 @@ import itertools
 import numpy as np
 from hypothesis import strategies as st
 
+from mv import hperm
+
 from mv import gen_atoms, model_atoms as M
 from mv.quiet import silenced
 from mv.runner import FuzzPart, EnumPart, HypPart, Violation
@@ -187,17 +189,17 @@ def oracle(case, stats):
 @st.composite
 def random_case(draw, tier="quick"):
     spec = draw(gen_atoms.typed_structure(min_atoms=2, max_atoms=12 if tier == "quick" else 40, max_terms=8, dups=True))
-    if draw(st.integers(0, 11)) == 0:
+    if draw(hperm.integers(0, 11)) == 0:
         spec = gen_atoms.inflate(spec, draw(st.sampled_from([150, 300])) // len(spec["pos"]) + 1)
     n = len(spec["pos"])
     if n > 60:
         # a few deletions spread over a large structure, always including high indices
-        sub = sorted(draw(st.sets(st.integers(0, n - 1), min_size=1, max_size=6)) | {n - 1 - draw(st.integers(0, 3))})
-        sub = [sub[i] for i in draw(st.permutations(range(len(sub))))]
+        sub = sorted(draw(st.sets(hperm.integers(0, n - 1), min_size=1, max_size=6)) | {n - 1 - draw(hperm.integers(0, 3))})
+        sub = [sub[i] for i in draw(hperm.permutations(range(len(sub))))]
         k = len(sub)
     else:
-        k = draw(st.integers(1, n))
-        sub = list(draw(st.permutations(range(n))))[:k]
+        k = draw(hperm.integers(1, n))
+        sub = list(draw(hperm.permutations(range(n))))[:k]
     op = draw(st.sampled_from(["del", "del", "del", "pop", "del2", "copydel"]))
     case = {"spec": spec, "op": op}
     if op == "del":
@@ -207,7 +209,7 @@ def random_case(draw, tier="quick"):
         case["index"] = draw(st.sampled_from([None] + list(range(-n, n))))
     elif op == "copydel":
         case["first"] = sub[:max(1, k // 2)]
-        case["second"] = sorted(draw(st.sets(st.integers(0, n - 1), min_size=1, max_size=min(n, 4))))
+        case["second"] = sorted(draw(st.sets(hperm.integers(0, n - 1), min_size=1, max_size=min(n, 4))))
     else:
         case["first"] = sub[:max(1, k // 2)]
         rest = n - len(case["first"])
@@ -218,8 +220,8 @@ def random_case(draw, tier="quick"):
             case["op"] = "del"
             case["indices"] = sub[:1]
         else:
-            case["second"] = list(draw(st.permutations(range(rest))))[:draw(st.integers(1, rest))] if rest <= 60 else \
-                sorted(draw(st.sets(st.integers(0, rest - 1), min_size=1, max_size=4)))
+            case["second"] = list(draw(hperm.permutations(range(rest))))[:draw(hperm.integers(1, rest))] if rest <= 60 else \
+                sorted(draw(st.sets(hperm.integers(0, rest - 1), min_size=1, max_size=4)))
     return case
 
 
